@@ -45,7 +45,7 @@ FLOORS = {
     "quick": {"evaluations": 3000, "distinct": 300,
               "counters": dict({"fingerprint_checks": 1500, "repeat_compares": 1500, "thread_renders": 1500,
                                 "yield_injections": 500, "stateful_templates": 50, "autoescape_cases": 90,
-                                "late_template_globals_steps": 16,
+                                "late_template_globals_steps": 16, "async_env_cases_rendered_through_sync_api": 15,
                                 "matrix_templates": 300, "matrix_renders": 9000, "matrix_renders_ok": 1500},
                                **{"matrix_renders:" + f: 1200 for f in _FLAVOURS},
                                **{"matrix_source:" + f: 3000 for f in _SRC})},
@@ -54,6 +54,7 @@ FLOORS = {
                                    "thread_renders": 40000, "yield_injections": 20000,
                                    "stateful_templates": 1000, "autoescape_cases": 1000,
                                    "late_template_globals_steps": 16,
+                                   "async_env_cases_rendered_through_sync_api": 300,
                                    "matrix_templates": 1000, "matrix_renders": 70000, "matrix_renders_ok": 12000},
                                   **{"matrix_renders:" + f: 10000 for f in _FLAVOURS},
                                   **{"matrix_source:" + f: 12000 for f in _SRC})},
@@ -388,10 +389,12 @@ def env_for(case):
     import jinja2
 
     ae = bool(case.get("autoescape"))
+    # async-enabled environments are rendered through the same synchronous API
+    asy = bool(case.get("async_env"))
     if "raw" in case:
         return jinja2.Environment(loader=jinja2.DictLoader(case["raw"]), extensions=corpus.EXTENSIONS,
-                                  autoescape=ae)
-    return corpus.make_env(case, autoescape=ae)
+                                  autoescape=ae, enable_async=asy)
+    return corpus.make_env(case, autoescape=ae, enable_async=asy)
 
 
 def names_of(case):
@@ -550,6 +553,9 @@ def run(ctx):
         if rng.random() < 0.4:
             case["autoescape"] = True
             ctx.count("autoescape_cases")
+        if rng.random() < 0.3:
+            case["async_env"] = True
+            ctx.count("async_env_cases_rendered_through_sync_api")
         check_sequential(ctx, case, rng)
         if "raw" not in case:
             ctx.dist(corpus.shape(case))
